@@ -361,8 +361,8 @@ func registerResolver() {
 		Thorough: []Shard{c12(0, 0), c12(1, 0), c12(2, 0), c12(3, 0), c12(4, 0), c12(0, 1), c12(1, 1), c12(2, 1), c12(3, 1), c12(4, 1), c12(5, 0), c12(5, 1),
 			sh("HarnessC12Par", "outcome clause: two goroutines, shared run-once converter (struct form), <=6 context switches", 0, 1, 6), sh("HarnessC12Par", "outcome clause: shared run-once converter (*struct form), <=6 context switches", 0, 2, 6), sh("HarnessC12Par", "outcome clause: shared run-once converter (built form), <=5 context switches", 0, 3, 5)},
 		Covers:   []string{"C12.operation-checked", "C12.par-checked"},
-		Bounds:   []string{"shared objects: a struct-form target with default options, two converters (one optionally run-once), an option slice whose composition (Named, NamedSubtype, TypedSubtype, ConverterFunc/Converter, ConverterGen, filters) is symbolic; operations Call, Convert, Redefine, repeated use, call of a redefined function", "write set: every interpreter store (Store, map update/delete, append into spare capacity, copy, reflect.Value.Set) to a cell reachable from the shared objects or from package-level variables; stores made while a sync.Mutex is held are admitted"},
-		Outside:  []string{"functions assembled with BuildFunc (excluded by the property)", "user callbacks", "the Go memory model below the granularity of interpreter loads and stores", "outcome equivalence under interleaving is implied only when the write set is empty or lock-protected"},
+		Bounds:   []string{"shared objects: a struct-form target with default options, two converters (one optionally run-once), an option slice whose composition (Named, NamedSubtype, TypedSubtype, ConverterFunc/Converter, ConverterGen, filters) is symbolic; a function returned by an earlier Redefine; TWO operations per path (the second chosen symbolically) from Call, Convert, Redefine, repeated use, Redefine + call of the result, call of the shared redefined function; the target fails symbolically", "accesses: every interpreter store (Store, map update/delete, append into spare capacity, copy, reflect.Value.Set) and every load of library code to a cell reachable from the shared objects or from package-level variables, recorded with the set of locks held (sync.Mutex/RWMutex; a sync.Once being executed or already passed counts as a lock; sync/atomic operations are exempt)", "oracle: no store without a lock; no cell stored under a lock and loaded or stored under a lockset sharing no lock with it (Eraser lockset criterion)", "native confirmation: the two operations as two goroutines (and each against itself), 60 runs with a random stagger under the race detector"},
+		Outside:  []string{"functions assembled with BuildFunc (excluded by the property)", "user callbacks", "the Go memory model below the granularity of interpreter loads and stores", "outcome equivalence under interleaving is implied only when the lock discipline holds", "happens-before edges other than locks, Once and atomics (channels, WaitGroup): the library uses none", "unguarded stores through a symbolic (non-concretised) slice index"},
 		Assume:   append(common, "lock-discipline reduction (Eraser lockset): no store to pre-existing shared state without a lock, and no location stored under a lock and accessed under a lockset sharing no lock with it => race freedom under every interleaving"),
 		Anchored: []string{"(*github.com/hashicorp/go-argmapper.Func).callDirect", "github.com/hashicorp/go-argmapper.NamedSubtype", "github.com/hashicorp/go-argmapper.newArgBuilder", "(*github.com/hashicorp/go-argmapper.Func).argBuilder"},
 		CVQuick:  0, CVThor: 0,
